@@ -17,4 +17,9 @@ ProbeNoDead       == \A r \in RM : rmState[r].type /= "dead"
 ProbeNoAcceptLater == \A r \in RM : ~(rmState[r].type = "blockAccepted" /\ rmState[r].view > 1)
 ProbeNoMaxView     == \A r \in RM : Honest(r) => rmState[r].view < MaxView
 ProbeNoCommitDelivered == \A r \in RM : \A m \in rmState[r].pool : ~(m.type = "Commit" /\ m.rm /= r)
+
+\* focus constraints (harness C20): prune behaviours in which somebody commits before view 1 / view 2,
+\* so that random simulation spends its budget on decisions taken after one or two view changes
+FocusLateViews1 == \A r \in RM : rmState[r].type \in {"commitSent", "commitAckSent", "blockAccepted"} => rmState[r].view >= 1
+FocusLateViews2 == \A r \in RM : rmState[r].type \in {"commitSent", "commitAckSent", "blockAccepted"} => rmState[r].view >= 2
 =============================================================================
